@@ -30,6 +30,45 @@ pub fn translate(repo: &Path, out: &mut Out) {
             }
             None => out.miss("write.rs: impl Write for MappedWrite"),
         }
+        // ---- the bodies themselves, statement by statement (imp.rs): flush, one iteration of write's loop, drop
+        let cfg = crate::imp::Config {
+            methods: vec![("is_empty", "(is_empty {r})")],
+            mutators: vec![("push", "({r} ++ [{0}])"), ("write_all", "({r} ++ {0})")],
+            state_calls: vec![("map_and_write_current_buffer", "gen_mw_flush self_mapping_fn", vec!["self_buffer", "self_inner"])],
+            calls: vec![],
+            variants: vec![],
+            eq: "N.eqb",
+            take_default: "(@nil N)",
+        };
+        let state = vec!["self_buffer".to_string(), "self_inner".to_string()];
+        let sig = "(self_mapping_fn : bytes -> bytes) (self_buffer : bytes) (self_inner : option bytes)";
+        let mut emit = |name: &str, extra: &str, stmts: &[syn::Stmt], what: &str, v: &mut String, out: &mut Out| {
+            let mut tr = crate::imp::Tr::new(&cfg);
+            let mut scope = state.clone();
+            let term = tr.stmts(stmts, &mut scope, &state);
+            for m in &tr.missing {
+                out.miss(format!("write.rs: {what}: {m}"));
+            }
+            let _ = writeln!(v, "(* {what} *)\nDefinition {name} {sig}{extra} : bytes * option bytes :=\n{}.", crate::imp::indent(&term, 2));
+        };
+        if let Some(f) = find_impl_fn(&file, "MappedWrite", None, "map_and_write_current_buffer") {
+            emit("gen_mw_flush", "", &f.block.stmts, "MappedWrite::map_and_write_current_buffer", &mut v, out);
+        }
+        if let Some(f) = find_impl_fn(&file, "MappedWrite", Some("Write"), "write") {
+            let st = &f.block.stmts;
+            let frame_ok = st.len() == 2
+                && squash(&st[1]) == "Ok(buf.len())"
+                && matches!(&st[0], syn::Stmt::Expr(syn::Expr::ForLoop(fl), _) if squash(&fl.expr) == "buf" && squash(&fl.pat) == "byte");
+            let _ = writeln!(v, "Definition mapped_write_frame_ok : bool := {frame_ok}.");
+            if let Some(syn::Stmt::Expr(syn::Expr::ForLoop(fl), _)) = st.first() {
+                emit("gen_mw_byte", " (self_marker_byte : N) (byte : N)", &fl.body.stmts, "MappedWrite::write, one iteration of `for byte in buf`", &mut v, out);
+            } else {
+                out.miss("write.rs: MappedWrite::write `for` loop");
+            }
+        }
+        if let Some(f) = find_impl_fn(&file, "MappedWrite", Some("Drop"), "drop") {
+            emit("gen_mw_drop", "", &f.block.stmts, "Drop for MappedWrite", &mut v, out);
+        }
         match find_impl_fn(&file, "MappedWrite", Some("Drop"), "drop") {
             Some(f) => {
                 let ok = squash(&f.block).contains("let_result=self.map_and_write_current_buffer();");
@@ -74,5 +113,6 @@ pub fn translate(repo: &Path, out: &mut Out) {
     } else {
         out.miss("command.rs: cannot parse");
     }
+    out.coq("GenStream.v").push_str("From LV Require Import Base ImpPrims.\nOpen Scope N_scope.\n");
     out.coq("GenStream.v").push_str(&v);
 }
